@@ -185,8 +185,9 @@ class MultiTierCache(Entity):
                 if value is not None:
                     self._tier_hits[tier_idx] = self._tier_hits.get(tier_idx, 0) + 1
 
-                    # Promote to higher tier if applicable
-                    if tier_idx > 0:
+                    # Promote to higher tier if applicable - unless the entry was
+                    # invalidated (overwritten) while the tier read was in flight
+                    if tier_idx > 0 and tier.contains_cached(key):
                         self._maybe_promote(key, value, tier_idx)
 
                     return value
